@@ -68,6 +68,23 @@ Definition ident (ts : list token) : option (string * list token) :=
   match ts with TId s :: ts' => Some (s, ts') | _ => None end.
 
 (* ---- values: array | identifier | number | string ---- *)
+(* the tail of an array after its first element: ("," value)* "]" ; [val] parses one element *)
+Fixpoint array_tail (val : list token -> option (pval * list token)) (g : nat) (acc : list pval) (ts : list token)
+  : option (pval * list token) :=
+  match g with
+  | O => None
+  | S g' =>
+      match ts with
+      | TPunct "]" :: ts2 => Some (PVArr (rev acc), ts2)
+      | TPunct "," :: ts2 =>
+          match val ts2 with
+          | Some (v', ts3) => array_tail val g' (v' :: acc) ts3
+          | None => None
+          end
+      | _ => None
+      end
+  end.
+
 Fixpoint value (fuel : nat) (ts : list token) : option (pval * list token) :=
   match fuel with
   | O => None
@@ -79,21 +96,7 @@ Fixpoint value (fuel : nat) (ts : list token) : option (pval * list token) :=
       | TId s :: ts' => Some (PVStr s, ts')
       | TPunct "[" :: ts' =>
           match value f ts' with
-          | Some (v, ts1) =>
-              (fix more (g : nat) (acc : list pval) (ts : list token) : option (pval * list token) :=
-                 match g with
-                 | O => None
-                 | S g' =>
-                     match ts with
-                     | TPunct "]" :: ts2 => Some (PVArr (rev acc), ts2)
-                     | TPunct "," :: ts2 =>
-                         match value f ts2 with
-                         | Some (v', ts3) => more g' (v' :: acc) ts3
-                         | None => None
-                         end
-                     | _ => None
-                     end
-                 end) f [v] ts1
+          | Some (v, ts1) => array_tail (value f) f [v] ts1
           | None => None
           end
       | _ => None
@@ -106,12 +109,15 @@ Fixpoint type (fuel : nat) (ts : list token) : option (pty * list token) :=
   | O => None
   | S f =>
       match ts with
-      | TId "Optional" :: TPunct "[" :: ts' =>
-          match type f ts' with
-          | Some (t, ts1) => option_map (pair (PTOpt t)) (expect (P "]") ts1)
-          | None => None
+      | TId name :: ts' =>
+          match (if String.eqb name "Optional" then expect (P "[") ts' else None) with
+          | Some ts'' =>
+              match type f ts'' with
+              | Some (t, ts1) => option_map (pair (PTOpt t)) (expect (P "]") ts1)
+              | None => None
+              end
+          | None => Some (classify name, ts')
           end
-      | TId name :: ts' => Some (classify name, ts')
       | TPunct "[" :: ts' =>
           match type f ts' with
           | Some (t, TPunct "]" :: ts1) => Some (PTDyn t, ts1)
@@ -216,14 +222,21 @@ Definition enum_field (fuel : nat) (ts : list token) : option ((string * pval) *
   | _ => None
   end.
 
-Definition impl_item (fuel : nat) (ts : list token) : option (pimpl_item * list token) :=
+(* "signal" name "{" : the head of a signal block (anything else in an impl body is an extension field) *)
+Definition sig_head (ts : list token) : option (string * list token) :=
   match ts with
-  | TId "signal" :: TId name :: TPunct "{" :: ts1 =>
+  | TId s :: TId name :: TPunct c :: ts1 => if String.eqb s "signal" && Ascii.eqb c "{" then Some (name, ts1) else None
+  | _ => None
+  end.
+
+Definition impl_item (fuel : nat) (ts : list token) : option (pimpl_item * list token) :=
+  match sig_head ts with
+  | Some (name, ts1) =>
       match many1 (ext_field fuel) fuel ts1 with
       | Some (fs, ts2) => option_map (pair (PSig name fs)) (expect (P ",") ts2)
       | None => None
       end
-  | _ => match ext_field fuel ts with Some ((k, v), ts1) => Some (PExt k v, ts1) | None => None end
+  | None => match ext_field fuel ts with Some ((k, v), ts1) => Some (PExt k v, ts1) | None => None end
   end.
 
 Definition method (ts : list token) : option (pmethod * list token) :=
@@ -248,6 +261,15 @@ Fixpoint mod_path (fuel : nat) (ts : list token) : option (list string * list to
       end
   end.
 
+(* "as"? identifier? after `impl P for T`: `as N` and `N` rename, a lone `as` does not *)
+Definition impl_name (ts : list token) : option string * list token :=
+  match ts with
+  | TId a :: ts' =>
+      if String.eqb a "as" then match ts' with TId n :: ts'' => (Some n, ts'') | _ => (None, ts') end
+      else (Some a, ts')
+  | _ => (None, ts)
+  end.
+
 Definition one_item (fuel : nat) (ts : list token) : option (item * list token) :=
   match ts with
   | TId "struct" :: TId name :: TPunct "{" :: ts1 =>
@@ -256,13 +278,7 @@ Definition one_item (fuel : nat) (ts : list token) : option (item * list token) 
   | TId "enum" :: TId name :: TPunct "{" :: ts1 =>
       match many1 (enum_field fuel) fuel ts1 with Some (vs, ts2) => Some (IEnum name vs, ts2) | None => None end
   | TId "impl" :: TId proto :: TId "for" :: TId ty :: ts1 =>
-      let '(nm, ts2) :=
-        match ts1 with
-        | TId "as" :: TId n :: ts' => (Some n, ts')
-        | TId "as" :: ts' => (None, ts')
-        | TId n :: ts' => (Some n, ts')
-        | _ => (None, ts1)
-        end in
+      let '(nm, ts2) := impl_name ts1 in
       match ts2 with
       | TPunct "{" :: ts3 =>
           match many1 (impl_item fuel) fuel ts3 with Some (b, ts4) => Some (IImpl proto ty nm b, ts4) | None => None end
